@@ -489,12 +489,20 @@ package db
 //@   loop 1 ranges c.indexes
 //@   ensures err == nil ==> exhausted(1)
 //@   tags C07
+//@ // the old entries are those of the stored document; the new entries are made from a second copy of the stored
+//@ // document overlaid with the indexed fields the given document carries (a document may carry only the fields
+//@ // that change), or from the given document when nothing is stored
 //@ func (*collection).updateIndexedDoc -> (err)
-//@   assert before call#1 Update: arg2 == res(get, 1, 0) && arg3 == doc && arg0 == rangeslice1[rangeindex1+1] && res(get, 1, 1) == nil
+//@   assert before call#1 Update: arg2 == res(get, 1, 0) && arg0 == rangeslice2[rangeindex2+1] && res(get, 1, 1) == nil && res(get, 2, 1) == nil
+//@   assert before call#1 Update: (res(get, 2, 0) != nil ==> arg3 == res(get, 2, 0)) && (res(get, 2, 0) == nil ==> arg3 == doc)
 //@   assert before call#1 get: arg2 == res(getPrimaryKeyFromDocID, 1, 0) && !arg4
-//@   loop 1 every-iteration call#1 Update
-//@   loop 1 ranges c.indexes
-//@   ensures err == nil ==> exhausted(1)
+//@   assert before call#2 get: arg2 == res(getPrimaryKeyFromDocID, 1, 0) && !arg4
+//@   assert before call#1 Set: arg0 == res(get, 2, 0) && arg1 == field.Name && callarg(TryGetValue, 1, 0) == doc && callarg(TryGetValue, 1, 1) == field.Name
+//@   loop 1 ranges indexedFields
+//@   loop 2 every-iteration call#1 Update
+//@   loop 2 ranges c.indexes
+//@   ensures err == nil ==> exhausted(2)
+//@   ensures err == nil && res(get, 2, 0) != nil ==> exhausted(1)
 //@   tags C07
 //@ func (*collection).deleteIndexedDocWithID -> (err)
 //@   assert before call#1 deleteIndexedDoc: arg2 == res(get, 1, 0) && res(get, 1, 1) == nil && arg2 != nil
